@@ -24,7 +24,16 @@ class Scripted:
     normal law, checks that script gauss must not use them as probabilities).  When it is None
     random.gauss is left untouched (the real generator)."""
 
-    def __init__(self, prefix=(), thresholds=(), uniform_values=None, gauss_values=None):
+    def __init__(self, prefix=(), thresholds=(), uniform_values=None, gauss_values=None, script_state=False):
+        # script_state: also script random.getstate / random.setstate.  The generator is a deterministic
+        # stream: after setstate(s) the code re-reads the numbers it consumed since getstate() returned s.
+        # Scripted model: the draws made since the checkpoint are kept on a tape; a draw made after a rewind
+        # is NOT a new branch point: the same call returns the same value, a different call returns the
+        # alternative selected by the taped index (a deterministic function of the earlier draw) -- either way
+        # with probability 1, so that any reuse of consumed randomness shows up as a different joint law.
+        self.script_state = script_state
+        self.tape = []      # indices into self.log of the fresh draws, in order
+        self.cursor = 0     # position on the tape (== len(tape) unless rewound)
         self.prefix = list(prefix)
         self.log = []  # (fn, args, nalts, idx, prob, result)
         cuts = sorted({Fraction(t) for t in thresholds if 0 < Fraction(t) < 1})
@@ -39,7 +48,22 @@ class Scripted:
 
     # -- plumbing
     def _pick(self, fn, args, alts):
+        if self.script_state and self.cursor < len(self.tape):
+            # replay after a rewind: no branching
+            e = self.log[self.tape[self.cursor]]
+            self.cursor += 1
+            if e[0] == fn and e[1] == args and e[3] < len(alts):
+                val = alts[e[3]][0]
+                idx = e[3]
+            else:
+                idx = e[3] % len(alts)
+                val = alts[idx][0]
+            self.log.append((fn, args, 1, 0, Fraction(1), val))
+            return val
         pos = len(self.log)
+        if self.script_state:
+            self.tape.append(pos)
+            self.cursor = len(self.tape)
         idx = self.prefix[pos] if pos < len(self.prefix) else 0
         if idx >= len(alts):
             raise Unscripted(f"script index {idx} out of range for {fn}{args}")
@@ -59,12 +83,26 @@ class Scripted:
         _random.shuffle = self.shuffle
         if self.gauss_values is not None:
             _random.gauss = self.gauss
+        if self.script_state:
+            self._saved["getstate"] = _random.getstate
+            self._saved["setstate"] = _random.setstate
+            _random.getstate = self.getstate
+            _random.setstate = self.setstate
         return self
 
     def __exit__(self, *exc):
         for name, f in self._saved.items():
             setattr(_random, name, f)
         return False
+
+    # -- scripted generator state
+    def getstate(self):
+        return ("scripted-state", self.cursor)
+
+    def setstate(self, state):
+        if not (isinstance(state, tuple) and len(state) == 2 and state[0] == "scripted-state"):
+            raise Unscripted("random.setstate with a state not obtained from the scripted generator")
+        self.cursor = state[1]
 
     # -- scripted functions
     def random(self):
@@ -144,7 +182,7 @@ class Scripted:
         return [e[3] for e in self.log]
 
 
-def explore(run, thresholds=(), uniform_values=None, max_paths=200000, gauss_values=None):
+def explore(run, thresholds=(), uniform_values=None, max_paths=200000, gauss_values=None, script_state=False):
     """Depth-first enumeration of every RNG branch of run().
 
     run() is called once per branch inside a Scripted context and returns an outcome.
@@ -153,7 +191,7 @@ def explore(run, thresholds=(), uniform_values=None, max_paths=200000, gauss_val
     count = 0
     while stack:
         prefix = stack.pop()
-        with Scripted(prefix, thresholds, uniform_values, gauss_values) as s:
+        with Scripted(prefix, thresholds, uniform_values, gauss_values, script_state) as s:
             outcome = run(s)
         count += 1
         if count > max_paths:
